@@ -152,6 +152,56 @@ def zero_threads(chk, idx):
     chk.dist["zero_threads_status"] = chk.dist.get("zero_threads_status", []) + [rc]
 
 
+def llvm_rejected(chk, idx):
+    """an LLVM gcno whose run data is damaged (one of its gcda files is cut somewhere after the header): the whole unit is
+    rejected and contributes nothing - not even what was read before the damage - while the other inputs are unaffected"""
+    rng = chk.rng
+    root = vlib.scratch("c07_llvm%d" % idx)
+    small = [pipeline.make_info(rng, i, PATHS) for i in range(rng.randrange(1, 4))]
+    ind = os.path.join(root, "in")
+    stem = rng.choice(["file", "file_branch", "reader"])
+    gn = open(os.path.join(vlib.REPO, "test", "llvm", stem + ".gcno"), "rb").read()
+    gda = open(os.path.join(vlib.REPO, "test", "llvm", stem + ".gcda"), "rb").read()
+    cut = rng.randrange(12, len(gda) - 1)
+    layout = rng.choice(["good+cut", "cut+good", "cut"])
+    dirs = {"good+cut": [("a", gda), ("b", gda[:cut])], "cut+good": [("a", gda[:cut]), ("b", gda)], "cut": [("a", gda[:cut])]}[layout]
+    os.makedirs(os.path.join(ind, "notes"), exist_ok=True)
+    open(os.path.join(ind, "notes", stem + ".gcno"), "wb").write(gn)
+    args = [os.path.join(ind, "notes")]
+    for d, data in dirs:
+        os.makedirs(os.path.join(ind, d), exist_ok=True)
+        open(os.path.join(ind, d, stem + ".gcda"), "wb").write(data)
+        args.append(os.path.join(ind, d))
+    for i, b in enumerate(small):
+        open(os.path.join(ind, "s%d.info" % i), "wb").write(b)
+        args.append(os.path.join(ind, "s%d.info" % i))
+    branch = rng.random() < 0.6
+    threads = rng.choice([1, 2, 4])
+    # does the reader reject this cut?  (a cut at a record boundary can leave a well-formed shorter file)
+    probe = vlib.run_impl("gcno", [{"gcno": gn.hex(), "gcdas": [x.hex() for _, x in dirs], "branch": branch, "stem": stem}], chk.pid)[0]
+    parsed = vlib.run_impl("parse", [{"hex": b.hex(), "format": "info", "branch": branch} for b in small], chk.pid)
+    batches = [[[n, gen.cov_canon(c)] for n, c in r["ok"]] for r in parsed if "ok" in r]
+    if "ok" in probe:
+        batches.append([[n, gen.cov_canon(c)] for n, c in probe["ok"]])
+    rc, out, err = pipeline.run_cli(args, threads, branch, timeout=LIMIT, cwd=root, extra=rng.choice([[], ["--llvm"]]))
+    chk.count()
+    hist = {"small_inputs": [b.decode() for b in small], "unit": "test/llvm/%s.gcno with gcda files %s (cut = first %d of %d bytes)" % (stem, layout, cut, len(gda)),
+            "threads": threads, "branch": branch, "reader_accepts_the_cut": "ok" in probe}
+    if rc is None:
+        chk.violation(dict(hist, kind="oracle", clause="grcov did not terminate within %d s" % LIMIT), tag="hang")
+        return
+    if rc != 0:
+        chk.violation(dict(hist, kind="oracle", clause="a rejected input must not change the exit status (got %s)" % rc, stderr=err[-600:]), tag="status")
+        return
+    why = report_oracle(pipeline.read_lcov_report(out), by_path(batches))
+    if why:
+        chk.violation(dict(hist, kind="oracle", clause="a unit whose run data is rejected contributes nothing, the other inputs are unaffected: " + why,
+                           report=out.decode("latin-1")[:1500]), tag="reject")
+        return
+    chk.nontrivial(["c07-llvm", idx, stem, layout, cut])
+    chk.dist["llvm_unit_with_cut_gcda"] = chk.dist.get("llvm_unit_with_cut_gcda", 0) + 1
+
+
 def validate(chk):
     pend = chk._pending
     exprs = [vlib.app("run_pipeline", t, cap, False, items, labels_coq(labels)) for _, t, cap, items, labels, _, _ in pend]
@@ -188,6 +238,8 @@ def run(chk):
         scenario(chk, i)
     for i in range(2 if chk.tier == "quick" else 10):
         zero_threads(chk, i)
+    for i in range(10 if chk.tier == "quick" else 150):
+        llvm_rejected(chk, i)
     sizes = [70 << 10, (1 << 20) + 4096, (4 << 20) + 4096, 9 << 20] + ([] if chk.tier == "quick" else [(16 << 20) + 1, 33 << 20, 65 << 20])
     for i, sz in enumerate(sizes):
         big_rejected(chk, i, sz)
@@ -198,7 +250,7 @@ def run(chk):
                        "injected fault or really malformed (rejected by parse_lcov), inputs that panic the worker outside or inside the result-map lock (one, many, all workers); "
                        "each run under a %d s limit: must terminate; a death implies a non-zero status; without deaths status 0 and the report equals the aggregation of the "
                        "accepted artifacts; the hook event log is scheduled into LTS labels and replayed by Coq (must be an execution ending in MExit with the same status). "
-                       "plus runs with --threads 0 (must end; status 0 only with the complete report); plus tracefiles of 70 KiB - 9 MiB (thorough: up to 65 MiB) with one malformed record at the start, middle or end, next to small well-formed inputs: skipped as a whole. "
+                       "plus LLVM units one of whose gcda files is cut after its header (rejected as a whole, nothing read before the damage counts); plus runs with --threads 0 (must end; status 0 only with the complete report); plus tracefiles of 70 KiB - 9 MiB (thorough: up to 65 MiB) with one malformed record at the start, middle or end, next to small well-formed inputs: skipped as a whole. "
                        "non-trivial = run whose trace reached validation; distinct by scenario" % LIMIT)
     chk.cov["trusted_base"] = ["Coq kernel; vm_compute for trace replay", "hooks H1-H3 in /repo (cfg mozilla_grcov_verif)", "Python event scheduler (output re-checked by Coq)",
                                "modelled, not verified: crossbeam channel FIFO/disconnect wake-up, Mutex poisoning, thread spawn/join, process::exit; OS scheduler"]
